@@ -1120,7 +1120,8 @@ impl LunarHour {
   }
 
   pub fn get_eight_char(&self) -> EightChar {
-    EIGHT_CHAR_PROVIDER.lock().unwrap().get_eight_char(self.clone())
+    // 某次计算失败(例如公历年超出范围)会使锁中毒，后续合法请求不应受影响
+    EIGHT_CHAR_PROVIDER.lock().unwrap_or_else(|e| e.into_inner()).get_eight_char(self.clone())
   }
 
   pub fn get_nine_star(&self) -> NineStar {
